@@ -384,6 +384,13 @@ def main(argv=None) -> int:
     seed = int(os.environ.get("VERIF_SEED", "0") or 0)
     ctx = Ctx(pid, args.tier, seed)
     rc = 2
+    # development aid: tools/try_seed.py holds this lock exclusively while a seeded change is applied to /repo,
+    # so that concurrently running checks never see a half-applied or foreign change (no effect on a single run)
+    repo_lock = None
+    if not os.environ.get("VERIF_REPO_LOCK_HELD"):
+        SCRATCH.mkdir(exist_ok=True)
+        repo_lock = open(SCRATCH / "repo.lock", "w")
+        fcntl.flock(repo_lock, fcntl.LOCK_SH)
     try:
         rc = run(ctx, args)
     except subprocess.TimeoutExpired as e:
